@@ -78,6 +78,11 @@ def print_st(s, ind="  "):
 
 
 def print_func(f):
+    if "." in f["name"]:
+        # a function in a package of its own: "Pk.f"
+        pkg, short = f["name"].split(".", 1)
+        body = print_func(dict(f, name=short))
+        return "package %s\n%send %s;\n" % (pkg, "".join("  " + l + "\n" for l in body.splitlines()), pkg)
     s = "function %s\n" % f["name"]
     for kind, key in (("input", "inputs"), ("output", "outputs")):
         for nm, dims in f[key]:
